@@ -385,7 +385,7 @@ pub fn coherence_h<Tr: ?Sized + Trait, B: Backend, E: Elem + SatisfyTraits<Tr>>(
 }
 
 /// a mutation through a removal handle before it is consumed travels with the value
-pub fn handle_mutation_h<Tr: ?Sized + Trait, B: Backend, BY: Backend, E: Elem + SatisfyTraits<Tr>>(p: crate::c01::P) {
+pub fn handle_mutation_h<Tr: ?Sized + Trait, B: Backend, BY: Backend, E: Elem + SatisfyTraits<Tr>>(p: crate::c01::P, op: u8) {
     reset_all();
     let (mut v, mut m) = build::<Tr, B, E>(p.cap, p.len, 0);
     let (mut y, mut my) = build::<Tr, BY, E>(p.cap2, p.len2, E::YBASE);
@@ -395,17 +395,34 @@ pub fn handle_mutation_h<Tr: ?Sized + Trait, B: Backend, BY: Backend, E: Elem + 
         assume(my.len < y.capacity());
     }
     let t2 = any_u8();
-    {
-        let mut h = v.swap_remove(i);
-        vp_assert!(h.as_bytes_ptr() as usize != 0, "VP: handle pointer null");
-        vp_assert!(h.value_typeid() == TypeId::of::<E>(), "VP: removal handle reports wrong type id");
-        vp_assert!(h.size() == size_of::<E>(), "VP: removal handle reports wrong size");
-        vp_assert!(h.as_bytes().len() == size_of::<E>() && h.as_bytes().as_ptr() as usize == h.as_bytes_ptr() as usize, "VP: removal handle byte view is not the element's bytes");
-        vp_assert!(h.as_bytes_mut().len() == size_of::<E>(), "VP: removal handle mutable byte view has wrong length");
-        h.downcast_mut::<E>().unwrap().set_tag(t2);
-        y.push(h);
+    macro_rules! through {
+        ($h:expr) => {{
+            let mut h = $h;
+            vp_assert!(h.as_bytes_ptr() as usize != 0, "VP: handle pointer null");
+            vp_assert!(h.value_typeid() == TypeId::of::<E>(), "VP: removal handle reports wrong type id");
+            vp_assert!(h.size() == size_of::<E>(), "VP: removal handle reports wrong size");
+            vp_assert!(h.as_bytes().len() == size_of::<E>() && h.as_bytes().as_ptr() as usize == h.as_bytes_ptr() as usize, "VP: removal handle byte view is not the element's bytes");
+            let shared = h.as_bytes_ptr() as usize;
+            vp_assert!(h.as_bytes_mut().len() == size_of::<E>() && h.as_bytes_mut().as_ptr() as usize == shared, "VP: removal handle mutable byte view is not the element's bytes");
+            vp_assert!(h.downcast_mut::<E>().unwrap() as *mut E as usize == shared, "VP: removal handle downcast_mut does not address the element");
+            h.downcast_mut::<E>().unwrap().set_tag(t2);
+            y.push(h);
+        }};
     }
-    let (id, _) = m.swap_remove(i);
+    let id = match op {
+        0 => {
+            through!(v.swap_remove(i));
+            m.swap_remove(i).0
+        }
+        1 => {
+            through!(v.remove(i));
+            m.remove(i).0
+        }
+        _ => {
+            through!(v.pop().unwrap());
+            m.pop().unwrap().0
+        }
+    };
     my.push(id, E::norm(t2));
     check_vec::<Tr, B, E>(&v, &m);
     check_vec::<Tr, BY, E>(&y, &my);
